@@ -350,7 +350,7 @@ def conflictIds (s : Pool) (t : Tx) : List Nat := dedup (t.inputs.filterMap (inp
 /-- `PoolMap::add_entry` -/
 def addEntry (s : Pool) (t : Tx) (st : Status) (ts : Nat) : Pool × AddRes :=
   if (getEntry s t.id).isSome then (s, .dup) else
-  if !(conflictIds s t).isEmpty then (s, .rejDbl) else
+  if !(conflictIds s t).isEmpty || !(decide t.inputs.Nodup) then (s, .rejDbl) else
   match checkAndRecordAncestors s (Entry.fresh t st ts) with
   | .rej => (s, .rejAnc)
   | .panic s' => (s', .panic)
